@@ -188,6 +188,16 @@ class HarnessHintsProvider(HintsProvider):
         return env.hints.get(condition_key)
 
 
+class HarnessSyncHintsProvider(HintsProvider):
+    """a hints provider whose get_hint_text is a plain function (HintsProvider.get_hints has a separate code path for it)"""
+
+    edifact_format = FMT
+    edifact_format_version = FMTV
+
+    def get_hint_text(self, condition_key: str) -> Optional[str]:  # pylint:disable=invalid-overridden-method
+        return _env().hints.get(condition_key)
+
+
 class HarnessPackageResolver(PackageResolver):
     edifact_format = FMT
     edifact_format_version = FMTV
@@ -208,13 +218,14 @@ def _provide_evaluatable_data() -> EvaluatableData:
 _configured = False
 
 
-def setup():
-    """configure inject once per process"""
+def setup(sync_hints: bool = False):
+    """configure inject once per process (sync_hints=True: reconfigure with the synchronous hints provider)"""
     global _configured
-    if _configured:
+    if _configured and not sync_hints:
         return
     provider = SingletonTokenLogicProvider(
-        [HarnessRcEvaluator(), HarnessFcEvaluator(), HarnessHintsProvider(), HarnessPackageResolver()]
+        [HarnessRcEvaluator(), HarnessFcEvaluator(), HarnessSyncHintsProvider() if sync_hints else HarnessHintsProvider(),
+         HarnessPackageResolver()]
     )
 
     def configure(binder):
@@ -222,7 +233,7 @@ def setup():
         binder.bind_to_provider(EvaluatableDataProvider, _provide_evaluatable_data)
 
     inject.clear_and_configure(configure)
-    _configured = True
+    _configured = not sync_hints
 
 
 _loop: Optional[asyncio.AbstractEventLoop] = None
